@@ -175,7 +175,9 @@ struct CalCase {
 
 fn cal_case(_t: Tier) -> impl Strategy<Value = CalCase> {
     // instants within +-7900 years for s/ms/us, the whole i64 range for ns
-    (0usize..4, prop_oneof![4 => -250_000_000_000i64..250_000_000_000, 2 => -200_000i64..200_000, 1 => Just(0i64)], 0i64..1_000_000_000, any::<i64>()).prop_map(|(u, secs, sub, raw)| {
+    // for ns: uniform over i64 plus the last two seconds at either end of the range
+    let raw_ns = prop_oneof![6 => any::<i64>(), 1 => (0i64..2_000_000_000).prop_map(|d| i64::MAX - d), 1 => (1i64..2_000_000_000).prop_map(|d| i64::MIN + d)];
+    (0usize..4, prop_oneof![4 => -250_000_000_000i64..250_000_000_000, 2 => -200_000i64..200_000, 1 => Just(0i64)], 0i64..1_000_000_000, raw_ns).prop_map(|(u, secs, sub, raw)| {
         let ts = match u {
             0 => secs,
             1 => secs * 1000 + sub / 1_000_000,
@@ -263,6 +265,19 @@ where
     must_nat!("as_cr", nat.as_cr().is_none());
     must_nat!("into_opt_i64", nat.into_opt_i64().is_none());
     must_nat!("cast_opt_i64", Cast::<Option<i64>>::cast(nat).is_none());
+    must_nat!(
+        "cast_opt_other",
+        Cast::<Option<i32>>::cast(nat).is_none()
+            && Cast::<Option<f64>>::cast(nat).is_none()
+            && Cast::<Option<f32>>::cast(nat).is_none()
+            && Cast::<Option<u64>>::cast(nat).is_none()
+            && Cast::<Option<usize>>::cast(nat).is_none()
+            && Cast::<Option<isize>>::cast(nat).is_none()
+            && Cast::<Option<u8>>::cast(nat).is_none()
+            && Cast::<Option<bool>>::cast(nat).is_none()
+    );
+    must_nat!("time.cast_opt_other", Cast::<Option<i32>>::cast(Time::nat()).is_none() && Cast::<Option<f64>>::cast(Time::nat()).is_none() && Cast::<Option<u64>>::cast(Time::nat()).is_none());
+    must_nat!("isnone", tevec::prelude::IsNone::is_none(&nat) && tevec::prelude::IsNone::to_opt(nat).is_none() && tevec::prelude::IsNone::is_none(&Time::nat()) && tevec::prelude::IsNone::is_none(&TimeDelta::nat()));
     must_nat!("getters", nat.year().is_none() && nat.month().is_none() && nat.day().is_none() && nat.hour().is_none() && nat.minute().is_none() && nat.second().is_none() && nat.time().is_none());
     must_nat!("strftime", nat.strftime(None) == "NaT");
     must_nat!("datetime+delta", (nat + td).is_nat());
